@@ -223,7 +223,7 @@ def rule_l2(ctx, facts, rule="L2"):
                             ctx.inst(rule, g, what, via.span, False, "%s mutates bin contents but is called outside any bin-lock region" % strip_generics(fid))
 
 
-def rule_l3(ctx, facts):
+def rule_l3(ctx, facts, rule="L3"):
     tr = facts.body("HashMap::transfer")
     fl = flow(tr)
     ev = evaluator(tr)
@@ -246,7 +246,7 @@ def rule_l3(ctx, facts):
         distinct = len({(f.show(tr) if f is not TOP else id(f)) for f in idx}) >= 2
         has_i = any(f is not TOP and fi is not TOP and f == fi for f in idx)
         ok = len(pre) >= 2 and distinct and has_i
-        ctx.inst("L3", tr, "forwarding marker after both new bins", m.span, ok,
+        ctx.inst(rule, tr, "forwarding marker after both new bins", m.span, ok,
                  "store_bin(new, %s) dominate the forwarding store" % ", ".join(f.show(tr) if f is not TOP else "?" for f in idx) if ok else
                  "the forwarding marker is stored at %s but only %d store(s) into the new table (%s) dominate it: a reader following the marker can miss a half of the bin"
                  % (m.span, len(pre), [f.show(tr) if f is not TOP else "?" for f in idx]))
@@ -730,7 +730,66 @@ def rule_l10(ctx, facts):
         ctx.fail_closed("L10: expected at least 8 (comparison, child) descent sites in the tree routines, found %d" % n)
 
 
+def rule_l13(ctx, facts):
+    """a new entry of a tree bin becomes reachable through the bin's traversal list (`first` / `next`) before it becomes reachable through
+    the tree: readers fall back to the list whenever a writer holds or awaits the tree lock, so everything a tree search can find must
+    already be in the list -- otherwise one lookup finds the key and a later one, which walks the list, does not"""
+    b = facts.body("TreeBin::find_or_put_tree_val")
+    fl = flow(b)
+    fresh = [c for c in b.calls if is_fresh_alloc(b, c) and "node::BinEntry" in b.ty(c.dst_local()).get("s", "") and not b.is_cleanup(c.b)]
+    if not fresh:
+        ctx.fail_closed("L13: find_or_put_tree_val allocates no node")
+        return
+    holders = set()
+    for c in fresh:
+        holders |= fl.flows_to(c.dst_local())
+    first_st, tree_st = set(), []
+    for c in b.calls:
+        if b.is_cleanup(c.b) or is_reclaim_atomic(c) not in ("store", "swap", "compare_exchange"):
+            continue
+        vl = op_root(c.args[1]) if len(c.args) > 1 else None
+        if vl is None or vl not in holders:
+            continue
+        rf = receiver_field(b, c, 0)
+        if ("node::TreeBin", "first") in rf:
+            first_st.add(c.point)
+        elif rf & {("node::TreeNode", "left"), ("node::TreeNode", "right"), ("node::TreeBin", "root")}:
+            tree_st.append(c)
+    if not first_st or not tree_st:
+        ctx.fail_closed("L13: expected the list publication (TreeBin.first) and the tree link (left / right / root) of the new node in find_or_put_tree_val")
+        return
+    # readers walk the list only while a writer holds or awaits the tree lock.  So: (a) a tree link made while this writer holds the
+    # lock must come after the list publication; (b) a tree link made outside the lock must be followed by the list publication before
+    # the lock is taken or the function returns (from then on any writer may set the flag)
+    from .rules_c18 import root_lock_fns, root_release_points
+    from .analysis import return_points
+    acq_ids = {x.id for x in root_lock_fns(facts)[0]}
+    acqs = [c for c in b.calls if c.resolved in acq_ids and not b.is_cleanup(c.b)]
+    rels = root_release_points(facts, b)
+    locked = set()
+    for a in acqs:
+        locked |= reach(b, after(b, a.point, label="ret"), avoid=rels, unwind=False)
+    unpublished = reach(b, [Point(0, 0)], avoid=first_st, unwind=False)
+    early = []
+    for c in tree_st:
+        if c.point not in unpublished:
+            continue                      # the list publication dominates it
+        if c.point in locked:
+            early.append((c, "while the tree write lock is held"))
+            continue
+        r2 = reach(b, after(b, c.point, label="ret"), avoid=first_st, unwind=False)
+        if any(a.point in r2 for a in acqs) or any(rp in r2 for rp in return_points(b)):
+            early.append((c, "and the tree lock is then taken, or the function returns, before it is stored into TreeBin.first"))
+    ctx.inst("L13", b, "new tree node: list before tree", (early[0][0] if early else tree_st[0]).span, not early,
+             "every store that links the new node into the tree under the write lock comes after its publication as the head of the bin's list; "
+             "outside the lock the publication follows before the lock can be taken" if not early else
+             "the new node is linked into the tree at %s %s: list-walking readers (every reader, while a writer holds or awaits the tree lock) miss "
+             "a key that tree-searching readers already found" % (early[0][0].span, early[0][1]))
+
+
 def run(ctx, facts):
+    ctx.rule("L13", "a new tree-bin entry is published in the bin's list (first / next) before it is linked into the tree", floor=1)
+    rule_l13(ctx, facts)
     ctx.rule("L10", "tree insertion and tree search descend to the same child for the same comparison outcome (sibling agreement)", floor=4)
     rule_l10(ctx, facts)
     ctx.rule("L9", "Table::bin(T, i) uses an index computed by T.bini(hash) for the same table value (no re-assignment of the table variable in between)", floor=5)
